@@ -58,8 +58,19 @@ var hangs int
 func guarded(attempt func(ctx context.Context) error) (err error, hung bool) {
 	for _, bound := range []time.Duration{watchdog, watchdogConfirm} {
 		wctx, cancel := context.WithTimeout(context.Background(), bound)
-		err = attempt(wctx)
-		hung = wctx.Err() != nil
+		done := make(chan error, 1)
+		go func() { done <- attempt(wctx) }()
+		select {
+		case err = <-done:
+			hung = wctx.Err() != nil
+		case <-time.After(bound + 5*time.Second):
+			// the call does not even come back after its context ended (a loop that never looks
+			// at the context): it is left behind
+			cancel()
+			run.Count("watchdog-expired")
+			abandoned = true
+			return errors.New("the call ignores the cancellation of its context"), true
+		}
 		cancel()
 		if !hung {
 			return err, false
@@ -69,12 +80,34 @@ func guarded(attempt func(ctx context.Context) error) (err error, hung bool) {
 	return err, true
 }
 
+// abandoned: a guarded call was left behind running; its destination must not be touched any more
+var abandoned bool
+
+// bounded runs f (a call that takes no context or may loop without looking at it: findRoots'
+// loop) in a goroutine; false = it did not come back within the bound (the goroutine is left behind).
+func bounded(f func()) bool {
+	done := make(chan struct{})
+	go func() { defer close(done); f() }()
+	for _, bound := range []time.Duration{watchdog, watchdogConfirm} {
+		t := time.NewTimer(bound)
+		select {
+		case <-done:
+			t.Stop()
+			return true
+		case <-t.C:
+			run.Count("watchdog-expired")
+		}
+	}
+	return false
+}
+
 // faultSrc fails the countdown-th source operation (Predecessors, Fetch, Referrers) with errInjected.
 type faultSrc struct {
 	content.ReadOnlyGraphStorage
 	countdown int
 	hit       bool
 	ops       int // operations seen
+	listed    []ocispec.Descriptor // the nodes whose predecessors were listed (Predecessors / Referrers), in call order
 }
 
 func (f *faultSrc) tick() error {
@@ -95,6 +128,7 @@ func (f *faultSrc) Fetch(ctx context.Context, d ocispec.Descriptor) (io.ReadClos
 	return f.ReadOnlyGraphStorage.Fetch(ctx, d)
 }
 func (f *faultSrc) Predecessors(ctx context.Context, d ocispec.Descriptor) ([]ocispec.Descriptor, error) {
+	f.listed = append(f.listed, d)
 	if err := f.tick(); err != nil {
 		return nil, err
 	}
@@ -105,6 +139,7 @@ func (f *faultSrc) Predecessors(ctx context.Context, d ocispec.Descriptor) ([]oc
 type faultLister struct{ *faultSrc }
 
 func (f faultLister) Referrers(ctx context.Context, d ocispec.Descriptor, at string, fn func([]ocispec.Descriptor) error) error {
+	f.listed = append(f.listed, d)
 	if err := f.tick(); err != nil {
 		return err
 	}
@@ -134,6 +169,7 @@ type caseSpec struct {
 	PermSeed uint64        `json:"permSeed"`
 	Conc     int           `json:"conc"`
 	Raw      bool          `json:"raw"` // ExtendedCopyGraph reads the store directly (map order of Predecessors)
+	Custom   int           `json:"custom"`  // > 0 (local sources): opts.FindPredecessors is set by the caller before the filters: 1 reversed + plain descriptors, 2 drops a third of the predecessors
 	Fault    int           `json:"fault"`   // > 0: one more ExtendedCopyGraph in which the Fault-th source operation fails
 	Prefill  int           `json:"prefill"` // > 0: the destination starts with a link-closed subset (density in %) of the graph
 	StartStyle int         `json:"startStyle"` // descriptor style of the given node passed to findRoots / ExtendedCopyGraph
@@ -235,11 +271,25 @@ func keepTruth(g *dag.Graph, p *dag.Node, fs []compiled) bool {
 // relation is the referrers (subject) relation only.
 var remoteTruth bool
 
+// curGraph / curSpec: the case under way (cases run one after the other)
+var curGraph *dag.Graph
+var curSpec *caseSpec
+
 func isRemote(kind string) bool { return strings.HasPrefix(kind, "remote") }
 
 // truePreds is the source's predecessor relation by the generator's edge list.
 func truePreds(g *dag.Graph, x int) []int {
 	if !remoteTruth {
+		if curSpec != nil && curSpec.Custom == 2 {
+			// the relation the caller's FindPredecessors defines
+			var out []int
+			for _, p := range g.Preds(x) {
+				if !customDrop(curSpec, p) {
+					out = append(out, p)
+				}
+			}
+			return out
+		}
 		return g.Preds(x)
 	}
 	var out []int
@@ -575,6 +625,7 @@ func tableTok(re *regexp.Regexp, pool []string) string {
 func filtersTok(g *dag.Graph, fs []compiled, served map[int][]ocispec.Descriptor) string {
 	var atPool, annPool []string
 	atPool = append(atPool, "")
+	annPool = append(annPool, "") // value of a missing key (the model evaluates the match eagerly)
 	for _, n := range g.Nodes {
 		atPool = append(atPool, n.ArtifactType, configMT(g, n), effType(g, n))
 		for _, v := range n.Annotations {
@@ -622,9 +673,44 @@ func nodesTok(g *dag.Graph, served map[int][]ocispec.Descriptor, rec *recSrc) st
 
 // ---------------------------------------------------------------- options
 
+// customDrop: the caller's FindPredecessors of variant 2 leaves this predecessor out
+func customDrop(spec *caseSpec, p int) bool {
+	return spec.Custom == 2 && (uint64(p)+spec.PermSeed)%3 == 0
+}
+
+// customFP is a caller-supplied FindPredecessors: the store's predecessors, some dropped,
+// reversed, stripped to plain descriptors (variant 1) -- a function of the store's answer only.
+func customFP(spec *caseSpec, g *dag.Graph) func(context.Context, content.ReadOnlyGraphStorage, ocispec.Descriptor) ([]ocispec.Descriptor, error) {
+	byKey := map[string]int{}
+	for _, n := range g.Nodes {
+		byKey[keyOf(n.Desc)] = n.ID
+	}
+	return func(ctx context.Context, src content.ReadOnlyGraphStorage, d ocispec.Descriptor) ([]ocispec.Descriptor, error) {
+		ps, err := src.Predecessors(ctx, d)
+		if err != nil {
+			return nil, err
+		}
+		var out []ocispec.Descriptor
+		for i := len(ps) - 1; i >= 0; i-- {
+			p := ps[i]
+			if id, ok := byKey[keyOf(p)]; ok && customDrop(spec, id) {
+				continue
+			}
+			if spec.Custom == 1 {
+				p = ocispec.Descriptor{MediaType: p.MediaType, Digest: p.Digest, Size: p.Size}
+			}
+			out = append(out, p)
+		}
+		return out, nil
+	}
+}
+
 func buildOpts(spec *caseSpec, fs []compiled) oras.ExtendedCopyGraphOptions {
 	opts := oras.ExtendedCopyGraphOptions{Depth: spec.Limit}
 	opts.Concurrency = spec.Conc
+	if spec.Custom > 0 && curGraph != nil {
+		opts.FindPredecessors = customFP(spec, curGraph)
+	}
 	for _, f := range fs {
 		if f.spec.Kind == "A" {
 			opts.FilterArtifactType(f.re)
@@ -669,6 +755,10 @@ func newDst(kind string) (oras.Target, func(), error) {
 // decoded by case_to_replay in bin/props.d/C03.py.
 func replayTok(spec *caseSpec) string {
 	js, _ := json.Marshal(spec)
+	return rawReplayTok(js)
+}
+
+func rawReplayTok(js []byte) string {
 	var buf bytes.Buffer
 	zw := zlib.NewWriter(&buf)
 	zw.Write(js)
@@ -740,6 +830,17 @@ func runCase(spec *caseSpec) {
 			return
 		}
 		served[n.ID] = ps
+		// a reloaded layout (oci.New on an existing directory, the read-only store) indexes every
+		// node by its plain descriptor: nothing of the pushing descriptor or of a referencing entry
+		if spec.Src == "ocireopen" || spec.Src == "ocifs" {
+			for _, p := range ps {
+				if p.ArtifactType != "" || p.Annotations != nil {
+					fail("reload-not-plain", fmt.Sprintf("source %s: predecessor %d of %d is served with artifactType %q / annotations %v",
+						spec.Src, rec.id(p), n.ID, p.ArtifactType, p.Annotations))
+					break
+				}
+			}
+		}
 		// the source's predecessor relation is the generator's inverse edge list
 		var got []int
 		for _, p := range ps {
@@ -769,6 +870,27 @@ func runCase(spec *caseSpec) {
 				}
 			}
 		}
+	}
+	if spec.Custom > 0 && !remoteTruth {
+		// from here on the followed relation is the one the caller's FindPredecessors defines:
+		// the model is given ITS output as the table (lister token "c": every filter takes the
+		// generic branch), the oracle applies the same drop rule to the generator's edge list
+		curGraph, curSpec = g, spec
+		defer func() { curGraph, curSpec = nil, nil }()
+		cf := customFP(spec, g)
+		for _, n := range g.Nodes {
+			if n.Foreign() {
+				continue
+			}
+			ps, err := cf(ctx, rec, n.Desc)
+			if err != nil {
+				fail("unexpected-error", fmt.Sprintf("custom FindPredecessors(%d): %v", n.ID, err))
+				return
+			}
+			served[n.ID] = ps
+		}
+		lister = "c"
+		run.Count(fmt.Sprintf("custom-find-predecessors=%d", spec.Custom))
 	}
 	if rec.bad != "" {
 		// the source serves (or is asked for) something that is no node of the graph: a wrong
@@ -806,7 +928,12 @@ func runCase(spec *caseSpec) {
 	if remoteTruth {
 		countedSrc = faultLister{counter}
 	}
-	roots, err := oras.VerifFindRoots(ctx, countedSrc, startDesc, opts)
+	var roots []ocispec.Descriptor
+	if !bounded(func() { roots, err = oras.VerifFindRoots(ctx, countedSrc, startDesc, opts) }) {
+		hangs++
+		fail("findroots-hang", fmt.Sprintf("findRoots did not return within %v", watchdog+watchdogConfirm))
+		return
+	}
 	obs := "ERR"
 	var rootIDs []int
 	if err == nil {
@@ -815,7 +942,12 @@ func runCase(spec *caseSpec) {
 			seen[rec.id(r)] = true
 		}
 		rootIDs = sortedKeys(seen)
-		obs = "OK " + idsString(rootIDs)
+		// ... and the sequence of nodes whose predecessors findRoots asked the source for
+		var calls []int
+		for _, d := range counter.listed {
+			calls = append(calls, rec.id(d))
+		}
+		obs = "OK " + idsString(rootIDs) + " " + idsString(calls)
 	}
 	line := fmt.Sprintf("FR %d %d %d %s %s %s %s", len(g.Nodes), spec.Limit, spec.Start, lister, ftok, ntok, rtok)
 	run.Case(id, line, obs)
@@ -852,6 +984,45 @@ func runCase(spec *caseSpec) {
 				fail("depth-root-not-top", fmt.Sprintf("root %d has followed predecessors and no path of length %d", r, spec.Limit))
 				break
 			}
+		}
+	}
+
+	// ---- findRoots with the k-th source operation failing (hook), against the model's find_roots_e:
+	// the error must surface at exactly that operation, a success must be the fault-free root set
+	if spec.Fault > 0 && err == nil && lister != "c" {
+		kk := 1 + spec.Fault%(counter.ops+2) // counter.ops+1 and beyond: never reached
+		fsrc := &faultSrc{ReadOnlyGraphStorage: hookSrc, countdown: kk}
+		var src content.ReadOnlyGraphStorage = fsrc
+		if remoteTruth {
+			src = faultLister{fsrc}
+		}
+		eid := run.NewID()
+		var froots []ocispec.Descriptor
+		var ferr error
+		if !bounded(func() { froots, ferr = oras.VerifFindRoots(ctx, src, startDesc, buildOpts(spec, fs)) }) {
+			hangs++
+			run.OracleFail(eid, "findroots-hang", fmt.Sprintf("findRoots with a failing operation did not return within %v", watchdog+watchdogConfirm), spec)
+			return
+		}
+		eobs := "ERR"
+		if ferr == nil {
+			seen := map[int]bool{}
+			for _, r := range froots {
+				seen[rec.id(r)] = true
+			}
+			eobs = "OK " + idsString(sortedKeys(seen))
+		}
+		run.Case(eid, fmt.Sprintf("FE %d %d %d %s %d %s %s %s", len(g.Nodes), spec.Limit, spec.Start, lister, kk, ftok, ntok, rtok), eobs)
+		run.Count("findRoots-fault")
+		switch {
+		case ferr != nil && !fsrc.hit:
+			run.OracleFail(eid, "spurious-error", fmt.Sprintf("findRoots failed although the armed fault (operation %d of %d) was not reached: %v", kk, counter.ops, ferr), spec)
+		case ferr == nil && fsrc.hit:
+			run.OracleFail(eid, "error-swallowed", fmt.Sprintf("operation %d of %d of findRoots failed, findRoots returned success with roots %s", kk, counter.ops, eobs), spec)
+		case ferr == nil && eobs != "OK "+idsString(rootIDs):
+			run.OracleFail(eid, "error-swallowed", fmt.Sprintf("with an armed (unreached) fault findRoots returned %s, without %s", eobs, "OK "+idsString(rootIDs)), spec)
+		case ferr != nil:
+			run.Count("findRoots-fault=error")
 		}
 	}
 
@@ -1024,6 +1195,11 @@ func runCase(spec *caseSpec) {
 			}
 			return oras.ExtendedCopyGraph(wctx, src, dst, startDesc, buildOpts(spec, fs))
 		})
+		if abandoned {
+			hangs++
+			fail("copy-hang", fmt.Sprintf("%s did not return, not even after its context was cancelled (Concurrency %d)", what, spec.Conc))
+			return
+		}
 		if clean == nil {
 			run.Count("destination-build-failed")
 			fmt.Fprintln(os.Stderr, "destination build failed:", err)
@@ -1101,7 +1277,10 @@ func runCase(spec *caseSpec) {
 			desc, cerr = oras.ExtendedCopy(wctx, b.store, startTag(spec.Start), dst, spec.DstRef, eopts)
 			return cerr
 		})
-		if clean == nil {
+		if abandoned {
+			hangs++
+			fail("copy-hang", fmt.Sprintf("ExtendedCopy did not return, not even after its context was cancelled (Concurrency %d)", spec.Conc))
+		} else if clean == nil {
 			run.Count("destination-build-failed")
 		} else {
 			if hung {
@@ -1189,7 +1368,14 @@ func (f *failingTagger) Tag(ctx context.Context, d ocispec.Descriptor, ref strin
 	return f.Store.Tag(ctx, d, ref)
 }
 
-func wrapperCase(resolves, graphOK, tagOK bool, srcRef, dstRef string) {
+// failingPreds: a memory source whose Predecessors fails (findRoots' error path)
+type failingPreds struct{ *memory.Store }
+
+func (f failingPreds) Predecessors(context.Context, ocispec.Descriptor) ([]ocispec.Descriptor, error) {
+	return nil, errInjected
+}
+
+func wrapperCase(resolves, rootsOK, graphOK, tagOK bool, srcRef, dstRef string) {
 	ctx := context.Background()
 	id := run.NewID()
 	src := memory.New()
@@ -1200,8 +1386,40 @@ func wrapperCase(resolves, graphOK, tagOK bool, srcRef, dstRef string) {
 		src.Tag(ctx, d, srcRef)
 	}
 	dst := &failingTagger{Store: memory.New(), failPush: !graphOK, failTag: !tagOK}
-	_, err := oras.ExtendedCopy(ctx, src, srcRef, dst, dstRef, oras.DefaultExtendedCopyOptions)
-	obs := "ERR"
+	var gsrc oras.ReadOnlyGraphTarget = src
+	if !rootsOK {
+		gsrc = failingPreds{src}
+	}
+	_, err := oras.ExtendedCopy(ctx, gsrc, srcRef, dst, dstRef, oras.DefaultExtendedCopyOptions)
+	obs := "ERR copy"
+	var ce *oras.CopyError
+	if errors.As(err, &ce) {
+		switch {
+		case ce.Op == "Resolve" || ce.Op == "Tag" || ce.Op == "FindPredecessors":
+			obs = "ERR " + ce.Op + "/" + ce.Origin.String()
+		}
+	}
+	if err != nil {
+		// the first failing step, by the generator's own knowledge of what was made to fail
+		want := "ERR copy"
+		switch {
+		case !resolves:
+			want = "ERR Resolve/source"
+		case !rootsOK:
+			want = "ERR FindPredecessors/source"
+		case !graphOK:
+			want = "ERR copy"
+		case !tagOK:
+			want = "ERR Tag/destination"
+		}
+		if obs != want {
+			run.OracleFail(id, "error-origin", fmt.Sprintf("ExtendedCopy(resolves %v, roots %v, copy %v, tag %v) failed with %q (%v), the first failing step is %q", resolves, rootsOK, graphOK, tagOK, obs, err, want),
+				map[string]any{"wrapper": []any{resolves, rootsOK, graphOK, tagOK, srcRef, dstRef}})
+		}
+	} else if !(resolves && rootsOK && graphOK && tagOK) {
+		run.OracleFail(id, "error-swallowed", fmt.Sprintf("ExtendedCopy(resolves %v, roots %v, copy %v, tag %v) succeeded", resolves, rootsOK, graphOK, tagOK),
+			map[string]any{"wrapper": []any{resolves, rootsOK, graphOK, tagOK, srcRef, dstRef}})
+	}
 	bit := func(b bool) string {
 		if b {
 			return "1"
@@ -1216,7 +1434,7 @@ func wrapperCase(resolves, graphOK, tagOK bool, srcRef, dstRef string) {
 		got, rerr := dst.Resolve(ctx, want)
 		if rerr != nil || got.Digest != d.Digest {
 			run.OracleFail(id, "not-tagged", fmt.Sprintf("ExtendedCopy(%q -> %q) succeeded but %q does not resolve to the given node", srcRef, dstRef, want),
-				map[string]any{"wrapper": []any{resolves, graphOK, tagOK, srcRef, dstRef}})
+				map[string]any{"wrapper": []any{resolves, rootsOK, graphOK, tagOK, srcRef, dstRef}})
 		}
 		// observed from the destination: every candidate reference and what it resolves to
 		// (7 = the given node, as in the model's tag list)
@@ -1235,7 +1453,7 @@ func wrapperCase(resolves, graphOK, tagOK bool, srcRef, dstRef string) {
 		}
 		obs = "OK " + strings.Join(seen, ",")
 	}
-	run.Case(id, fmt.Sprintf("XC %s %s %s %s %s", bit(resolves), bit(graphOK), bit(tagOK), common.Hex(srcRef), common.Hex(dstRef)), obs)
+	run.Case(id, fmt.Sprintf("XC %s %s %s %s %s %s", bit(resolves), bit(rootsOK), bit(graphOK), bit(tagOK), common.Hex(srcRef), common.Hex(dstRef)), obs)
 	run.Count("wrapper")
 }
 
@@ -1336,6 +1554,9 @@ func randomSpec(r *common.Rand, g *dag.Graph) *caseSpec {
 		spec.Prefill = common.Pick(r, []int{10, 30, 60})
 	}
 	spec.StartStyle = r.Intn(3)
+	if !isRemote(spec.Src) && r.Chance(1, 6) {
+		spec.Custom = 1 + r.Intn(2)
+	}
 	spec.Filters = randomFilters(r)
 	if r.Chance(1, 3) || (len(spec.Filters) > 0 && r.Chance(1, 3)) {
 		spec.Fault = 1 + r.Intn(60)
@@ -1365,7 +1586,7 @@ func main() {
 		return
 	}
 	r := run.Rand
-	graphs := run.Scale(1500, 5000)
+	graphs := run.Scale(1100, 4200)
 	for i := 0; i < graphs && hangs < 1; i++ {
 		var g *dag.Graph
 		if i%3 == 2 {
@@ -1405,12 +1626,15 @@ func main() {
 			}
 		}
 	}
+	smallScope(r)
 	coverageFloors()
 	for _, res := range []bool{true, false} {
-		for _, gok := range []bool{true, false} {
-			for _, tok := range []bool{true, false} {
-				for _, dref := range []string{"", "other"} {
-					wrapperCase(res, gok, tok, "v1", dref)
+		for _, rok := range []bool{true, false} {
+			for _, gok := range []bool{true, false} {
+				for _, tok := range []bool{true, false} {
+					for _, dref := range []string{"", "other"} {
+						wrapperCase(res, rok, gok, tok, "v1", dref)
+					}
 				}
 			}
 		}
@@ -1439,8 +1663,12 @@ func coverageFloors() {
 		need(k, 100)
 	}
 	need("graph=fan", 100)
+	need("small-scope", 2000)
 	need("referrers-by-type", 100)
 	need("fault=hit", 50)
+	need("findRoots-fault=error", 50)
+	need("custom-find-predecessors=1", 30)
+	need("custom-find-predecessors=2", 30)
 	need("fault=error-surfaced", 50)
 	need("dst=prefilled", 100)
 	need("filters=1", 300)
@@ -1481,8 +1709,15 @@ func replay(path string) {
 		}
 		if w, ok := probe["wrapper"]; ok {
 			var a []any
-			if json.Unmarshal(w, &a) == nil && len(a) == 5 {
-				wrapperCase(a[0].(bool), a[1].(bool), a[2].(bool), a[3].(string), a[4].(string))
+			if json.Unmarshal(w, &a) == nil && len(a) == 6 {
+				wrapperCase(a[0].(bool), a[1].(bool), a[2].(bool), a[3].(bool), a[4].(string), a[5].(string))
+			}
+			continue
+		}
+		if sg, ok := probe["smallgraph"]; ok {
+			var sc smallCase
+			if json.Unmarshal(sg, &sc) == nil {
+				runSmall(&sc)
 			}
 			continue
 		}
